@@ -248,7 +248,7 @@ func exprString(e ast.Expr) string {
 // StackReport: obligations of one push site (R10c, R20c).
 type StackReport struct {
 	Problems []string
-	Exact    bool // growth size is exactly the need (R20c)
+	Exact    bool // after growth the stack is at most 2*(top+1)+64 long (R20c)
 }
 
 // AnalyseFCall checks the growth-before-store discipline of a push:
@@ -301,7 +301,17 @@ func (m *Machine) AnalyseFCall(fc *FCallSite) *StackReport {
 		}
 	}
 	_ = okAll
-	// exact need: len + size == top + 1
-	rep.Exact = ln.Add(size).Equal(idx.AddK(1))
+	// bounded need (R20c): after growing, the stack is at most twice as long as the depth reached, plus a constant —
+	// exact growth (len + size == top + 1) and geometric growth both qualify; growth by an unrelated quantity does not
+	rep.Exact = true
+	for _, conj := range condIneqs(fc.GrowCond.Op, gl, gr, true) {
+		sys := base.With(conj...)
+		if !sys.Feasible() {
+			continue
+		}
+		if !sys.Implies(linarith.LE(ln.Add(size), idx.AddK(1).Scale(2).AddK(64))) {
+			rep.Exact = false
+		}
+	}
 	return rep
 }
